@@ -5,6 +5,8 @@ ID = "C08"
 STAGES = [
     Stage("transfer", "p08_transfer", "plain", {"quick": 60, "thorough": 4000}, timeout_per_case=120),
     Stage("transfer-asan", "p08_transfer", "asan", {"quick": 16, "thorough": 300}, offset=1000000, timeout_per_case=300),
+    # the wrappers the cycles call, on the solver's own levels, in every extrapolation mode and life stage of the object
+    Stage("solver-wrappers", "p08b_solver_transfer", "plain", {"quick": 48, "thorough": 1500}, offset=2000000, timeout_per_case=300),
 ]
 THRESHOLDS = {
     "restriction_is_transpose_ulps": 8.0,          # max |R_cf - P_fc| / (eps * |entry|)
@@ -20,6 +22,8 @@ THRESHOLDS = {
     "adjoint_inner_product": 1e-13,
     "no_new_extrema": 1e-15,
     "all_outputs_written": 0.5,
+    "solver_wrapper_is_the_interpolation_operator": 0.5,   # GMGPolar::prolongation etc. == Interpolation::apply* on the solver's levels, bit for bit
+    "solver_pair_adjoint": 1e-13,                           # <R x, y> = <x, P y> through the wrappers, standard and extrapolated pair
 }
 MIN_NONTRIVIAL = {"quick": 25, "thorough": 200}
 RULE = ("case = random coarse grid refined either by midpoints (what the library builds) or arbitrarily (fine nodes anywhere "
